@@ -13,7 +13,7 @@ intro = marker + '''
 For each property fresh sub-agents were given **only the property text** and a scratch git worktree of `/repo`
 (nothing from `/verif`) and asked for three different plausible changes that break the property, keep the
 test-suite green and need something specific to manifest (an interleaving, a fault at a particular point, a
-multi-step history, a boundary value, two cooperating sites). Later rounds (`-r2-`, `-r3-`) were additionally told
+multi-step history, a boundary value, two cooperating sites). Later rounds (`-r2-` … `-r7-`) were additionally told
 which kinds of change already existed and asked for different, harder ones. Each kept change was confirmed by
 `tools/seedcheck.py` in a scratch worktree (demo passes on the clean tree -> patch applies -> suite still 658 passed
 -> demo fails) and the checks were run against that worktree (`VERIF_REPO=<worktree> ./check <id>`), then the
@@ -57,6 +57,19 @@ The loop was: seed -> run -> strengthen the check *generally* where it missed (n
   (C17), pre-emption judged against the holder's recorded priority and one-shot iterables as request lists (C14),
   reported cycle *edges* and sweeps that also time out a bystander (C15), zero gain factors and post-hoc stage time
   budgets (C19), caller edits of every returned container (C20).
+* Round 6 (12 changes, aimed at C04/C05/C09/C13 only, told about rounds 1–5): 10 caught at once. The two misses led to
+  capacities and amounts beyond 2**53 in C04 (a float detour in `regenerate` is exact below that) and to
+  `apply_debt_interest` - the one ledger method that never took the lock - as a concurrent operation in C05, at rates
+  whose interest truncates to 0 so that the call must be a no-op wherever it is interleaved.
+* Round 7 (36 changes, aimed at the other twelve checks, told about rounds 1–5): 23 caught at once. The 13 misses led to:
+  tools that carry *both* capability attributes with one of them empty (C03), provider fail-over exceptions raised
+  mid-loop with a whole-call count of tool executions (C18), prompts beyond 16 k characters (C07), mixed
+  executor-failure / assessor-block verdict pairs under every gate logic, `reset_circuit_breaker` racing a failing request,
+  zero recovery timeouts (C08), `add_signature` racing `filter` (C10), shared budgets that reach STARVING / DORMANT with
+  energy left and weight/confidence ladders above saturation for the monotonicity pairs (C06), several operations of one
+  agent in one watchdog sweep (C14), 4–5 operations with bystander chains beside a cycle (C15), truthy non-callable
+  objects in the checkpoint field (C19), `RegulatoryTCell.evaluate` driven over every `ResponseAction` (C17). The same
+  evening a thorough soak at `VERIF_SEED=5` produced one more false alarm (C17, §9.4).
 * __SUMMARY__
 
 A change seeded under one property's text is sometimes a defect of a neighbouring property's kind (a sequential
